@@ -35,7 +35,7 @@ fn gen_cfg(tier: Tier) -> GenCfg {
     cfg.w_len.fileish = 22;
     cfg.w_len.blockish = 22;
     cfg.w_len.huge = 0;
-    cfg.w_special_names = 0;
+    cfg.w_special_names = 2;
     cfg
 }
 
@@ -263,6 +263,18 @@ impl Property for C04 {
             let inflight_changes_existence = inflight.map_or(false, |op| matches!(cops[op], COp::Create { .. } | COp::Delete { .. }));
             let mut driver = recovered.driver;
             let names: Vec<String> = driver.log.as_ref().unwrap().list_queues().map(|name| name.to_string()).collect();
+            // a queue that completed calls left alive must still be there (unless the in-flight call deletes it):
+            // losing the queue loses every position ever assigned in it
+            for (name, hi) in &before.hi {
+                let deleted_inflight = inflight.map_or(false, |op| matches!(&cops[op], COp::Delete { q } if q.text() == *name));
+                if !deleted_inflight && !names.contains(name) {
+                    return Err(exec.failure(
+                        format!("{where_}: queue {name:?} (highest position assigned or truncated-to: {hi:?}) does not exist after recovery, so its positions would start again from 0"),
+                        "queue-and-positions-lost-after-crash",
+                        extra,
+                    ));
+                }
+            }
             for name in names {
                 if inflight_changes_existence && inflight_queue.as_deref() == Some(name.as_str()) {
                     continue;
